@@ -69,12 +69,12 @@ theorem renderList_texts_then_fail (c : RCtx) (n : Node) (rest : List Node)
     simp only [List.nil_append, renderList, bind, M.bind, hx, Prog.bind, Prog.runPure]
   | t :: pre, h, s => by
     obtain ⟨tl, b, rfl⟩ := h t (List.mem_cons_self ..)
-    have ht := writesAt_text c tl b s.env s.tw
+    have ht : (renderNode c (.text tl b) s).runPure =
+        (s.tw.buf, .ok (.done, ⟨s.env, ⟨if s.tw.trim then trimLeftSpace b else b, false⟩⟩)) := by
+      rw [renderNode]; exact write_done_run _ _ b s
     obtain ⟨out, x, ih⟩ := renderList_texts_then_fail c n rest hn pre (fun t ht => h t (List.mem_cons_of_mem _ ht))
       ⟨s.env, ⟨if s.tw.trim then trimLeftSpace b else b, false⟩⟩
     refine ⟨s.tw.buf ++ out, x, ?_⟩
-    have hs : (⟨s.env, s.tw⟩ : RS) = s := rfl
-    rw [hs] at ht
     simp only [List.cons_append, renderList, bind, M.bind, Prog.runPure_bind, ht, ih]
 
 /-- the same with the error known: the failing node fails with `x` in every state -/
@@ -87,12 +87,12 @@ theorem renderList_texts_then_fail_with (c : RCtx) (n : Node) (rest : List Node)
     simp only [List.nil_append, renderList, bind, M.bind, hn s, Prog.bind, Prog.runPure]
   | t :: pre, h, s => by
     obtain ⟨tl, b, rfl⟩ := h t (List.mem_cons_self ..)
-    have ht := writesAt_text c tl b s.env s.tw
+    have ht : (renderNode c (.text tl b) s).runPure =
+        (s.tw.buf, .ok (.done, ⟨s.env, ⟨if s.tw.trim then trimLeftSpace b else b, false⟩⟩)) := by
+      rw [renderNode]; exact write_done_run _ _ b s
     obtain ⟨out, ih⟩ := renderList_texts_then_fail_with c n rest x hn pre (fun t ht => h t (List.mem_cons_of_mem _ ht))
       ⟨s.env, ⟨if s.tw.trim then trimLeftSpace b else b, false⟩⟩
     refine ⟨s.tw.buf ++ out, ?_⟩
-    have hs : (⟨s.env, s.tw⟩ : RS) = s := rfl
-    rw [hs] at ht
     simp only [List.cons_append, renderList, bind, M.bind, Prog.runPure_bind, ht, ih]
 
 /-- a root sequence that fails makes `renderRoot` fail with the same error -/
